@@ -232,98 +232,108 @@ func c20Enumerate(tier string, emit explore.Emit) {
 			return
 		}
 		forTokenStrings(c20Tokens, 1, func(second []int) {
-			q1, q2 := "select "+mk(first), "select "+mk(second)
-			n := len(first) + len(second)
-			for _, name := range []string{"", "s"} {
-				name := name
-				emit(explore.Case{Family: "redefine", Size: n, Desc: func() any {
-					return map[string]any{"statement": name, "first": q1, "second": q2, "via": "Parse, Parse (same name), Describe(S)"}
-				}, Run: func() explore.Result {
-					var res explore.Result
-					var r1 explore.Result
-					if _, ok := c20Judge(&r1, q1); !ok {
-						return r1
-					}
-					want, ok := c20Judge(&res, q2)
-					if !ok {
-						return res
-					}
-					res.Key = q1 + "\x00" + q2
-					one, err := harness.StartOne(c20Parse, wire.MessageBufferSize(1<<20))
-					if err != nil {
-						res.Engine = err.Error()
-						return res
-					}
-					one.Step(pgproto.Startup("user", "u"))
-					out, _ := one.Step(pgproto.Cat(pgproto.Parse(name, q1), pgproto.Describe('S', name), pgproto.Parse(name, q2), pgproto.Describe('S', name), pgproto.Sync()))
-					one.Stop()
-					ms, err := pgproto.ParseBackend(out)
-					if err != nil {
-						res.Fail("describe-grammar", err.Error())
-						return res
-					}
-					var t *pgproto.BMsg
-					for i := range ms {
-						if ms[i].Type == 't' {
-							t = &ms[i]
+			for _, blank := range []string{"select ", "", " ", "\t\n "} {
+				if blank != "select " && len(second) > 0 {
+					continue
+				}
+				q1, q2 := "select "+mk(first), blank+mk(second)
+				n := len(first) + len(second)
+				for _, name := range []string{"", "s"} {
+					name := name
+					emit(explore.Case{Family: "redefine", Size: n, Desc: func() any {
+						return map[string]any{"statement": name, "first": q1, "second": q2, "via": "Parse, Parse (same name), Describe(S)"}
+					}, Run: func() explore.Result {
+						var res explore.Result
+						var r1 explore.Result
+						if _, ok := c20Judge(&r1, q1); !ok {
+							return r1
 						}
-					}
-					if t == nil {
-						res.Fail("describe-missing", "no ParameterDescription in reply "+pgproto.Kinds(ms))
-					} else if len(t.OIDs) != want {
-						res.Fail("describe-count", fmt.Sprintf("statement %q redefined from %q to %q: ParseParameters reported %d placeholders for the new text, Describe announced %d", name, q1, q2, want, len(t.OIDs)))
-					}
-					return res
-				}})
+						want, ok := c20Judge(&res, q2)
+						if !ok {
+							return res
+						}
+						res.Key = q1 + "\x00" + q2
+						one, err := harness.StartOne(c20Parse, wire.MessageBufferSize(1<<20))
+						if err != nil {
+							res.Engine = err.Error()
+							return res
+						}
+						one.Step(pgproto.Startup("user", "u"))
+						out, _ := one.Step(pgproto.Cat(pgproto.Parse(name, q1), pgproto.Describe('S', name), pgproto.Parse(name, q2), pgproto.Describe('S', name), pgproto.Sync()))
+						one.Stop()
+						ms, err := pgproto.ParseBackend(out)
+						if err != nil {
+							res.Fail("describe-grammar", err.Error())
+							return res
+						}
+						var t *pgproto.BMsg
+						for i := range ms {
+							if ms[i].Type == 't' {
+								t = &ms[i]
+							}
+						}
+						if t == nil {
+							res.Fail("describe-missing", "no ParameterDescription in reply "+pgproto.Kinds(ms))
+						} else if len(t.OIDs) != want {
+							res.Fail("describe-count", fmt.Sprintf("statement %q redefined from %q to %q: ParseParameters reported %d placeholders for the new text, Describe announced %d", name, q1, q2, want, len(t.OIDs)))
+						}
+						return res
+					}})
+				}
 			}
 		})
 	})
 	forTokenStrings(c20Tokens, sdepth, func(parts []int) {
-		q := "select " + mk(parts)
-		n := len(parts)
-		emit(explore.Case{Family: "describe", Size: n, Desc: func() any { return map[string]any{"query": q, "via": "Parse+Describe(S)"} }, Run: func() explore.Result {
-			var res explore.Result
-			// the handler calls the documented helper on client-controlled text;
-			// a panic here kills the process (attributed by the driver).
-			parse := func(ctx context.Context, query string) (wire.PreparedStatements, error) {
-				return wire.Prepared(wire.NewStatement(func(ctx context.Context, w wire.DataWriter, p []wire.Parameter) error {
-					return w.Complete("OK")
-				}, wire.WithParameters(wire.ParseParameters(query)))), nil
+		for _, prefix := range []string{"select ", "", " "} {
+			if prefix != "select " && len(parts) > 1 {
+				continue
 			}
-			want, ok := c20Judge(&res, q)
-			if !ok {
-				return res
-			}
-			one, err := harness.StartOne(parse, wire.MessageBufferSize(1<<20))
-			if err != nil {
-				res.Engine = err.Error()
-				return res
-			}
-			one.Step(pgproto.Startup("user", "u"))
-			// the frontend may pre-declare types for only some (or none) of the placeholders
-			declared := make([]uint32, n%3)
-			for i := range declared {
-				declared[i] = 25
-			}
-			out, _ := one.Step(pgproto.Cat(pgproto.Parse("s", q, declared...), pgproto.Describe('S', "s"), pgproto.Sync()))
-			one.Stop()
-			ms, err := pgproto.ParseBackend(out)
-			if err != nil {
-				res.Fail("describe-grammar", err.Error())
-				return res
-			}
-			var t *pgproto.BMsg
-			for i := range ms {
-				if ms[i].Type == 't' {
-					t = &ms[i]
+			q := prefix + mk(parts)
+			n := len(parts)
+			emit(explore.Case{Family: "describe", Size: n, Desc: func() any { return map[string]any{"query": q, "via": "Parse+Describe(S)"} }, Run: func() explore.Result {
+				var res explore.Result
+				// the handler calls the documented helper on client-controlled text;
+				// a panic here kills the process (attributed by the driver).
+				parse := func(ctx context.Context, query string) (wire.PreparedStatements, error) {
+					return wire.Prepared(wire.NewStatement(func(ctx context.Context, w wire.DataWriter, p []wire.Parameter) error {
+						return w.Complete("OK")
+					}, wire.WithParameters(wire.ParseParameters(query)))), nil
 				}
-			}
-			if t == nil {
-				res.Fail("describe-missing", "no ParameterDescription in reply "+pgproto.Kinds(ms))
-			} else if len(t.OIDs) != want {
-				res.Fail("describe-count", fmt.Sprintf("ParseParameters reported %d placeholders, Describe announced %d", want, len(t.OIDs)))
-			}
-			return res
-		}})
+				want, ok := c20Judge(&res, q)
+				if !ok {
+					return res
+				}
+				one, err := harness.StartOne(parse, wire.MessageBufferSize(1<<20))
+				if err != nil {
+					res.Engine = err.Error()
+					return res
+				}
+				one.Step(pgproto.Startup("user", "u"))
+				// the frontend may pre-declare types for only some (or none) of the placeholders
+				declared := make([]uint32, n%3)
+				for i := range declared {
+					declared[i] = 25
+				}
+				out, _ := one.Step(pgproto.Cat(pgproto.Parse("s", q, declared...), pgproto.Describe('S', "s"), pgproto.Sync()))
+				one.Stop()
+				ms, err := pgproto.ParseBackend(out)
+				if err != nil {
+					res.Fail("describe-grammar", err.Error())
+					return res
+				}
+				var t *pgproto.BMsg
+				for i := range ms {
+					if ms[i].Type == 't' {
+						t = &ms[i]
+					}
+				}
+				if t == nil {
+					res.Fail("describe-missing", "no ParameterDescription in reply "+pgproto.Kinds(ms))
+				} else if len(t.OIDs) != want {
+					res.Fail("describe-count", fmt.Sprintf("ParseParameters reported %d placeholders, Describe announced %d", want, len(t.OIDs)))
+				}
+				return res
+			}})
+		}
 	})
 }
